@@ -36,7 +36,8 @@ RULE = (
 CONTAINERS = ("bytes", "region_fn", "region_method", "wav_eager", "wav_lazy", "raw_eager_str", "raw_lazy_path",
               "raw_misleading_ext", "wav_misleading_ext", "buffer_source", "reader", "stdin", "stdin_pipe")
 MUST_HIT = ["container_" + c for c in CONTAINERS] + ["conflicting_alias", "max_read_mid_window", "short_alias",
-                                                       "threshold_zero", "region_with_start_or_conflicting_format"]
+                                                       "threshold_zero", "region_with_start_or_conflicting_format", "conflicting_alias_short_first",
+                                                       "second_split_on_same_stdin"]
 ASSUMPTIONS = ["split(bytes, long names) is the baseline, judged on its own by C05/C06"]
 BOUNDS = {"quick": dict(n=500, maxwin=24), "thorough": dict(n=5000, maxwin=80)}
 PAIRS = {"sr": "sampling_rate", "sw": "sample_width", "ch": "channels", "aw": "analysis_window",
@@ -85,7 +86,9 @@ class _PipeStdin:
                     while unread() > 0 and not self.stop and time.time() - t0 < 20:
                         time.sleep(0.0002)
                     n = sizes[i % len(sizes)]
-                    os.write(wfd, data[pos: pos + n])
+                    piece = data[pos: pos + n]
+                    while piece:
+                        piece = piece[os.write(wfd, piece):]
                     pos += n
                     i += 1
                     time.sleep(0.0003)
@@ -125,6 +128,10 @@ def spell(kw, short, long_value, how, wrong):
         kw[long] = long_value
     elif how == "short":
         kw[short] = long_value
+    elif how == "both_rev":  # the alias comes first in the call: the long name must still win
+        kw.pop(long, None)
+        kw[short] = wrong
+        kw[long] = long_value
     else:
         kw[long] = long_value
         kw[short] = wrong
@@ -142,8 +149,10 @@ def check_case(case, rec_):
     mind, maxd, sild = audio.split_durations(win, aw)
     uc = rec.get("uc")
     classes = {"container_" + cont}
-    if any(v == "both" for v in sp.values()):
+    if any(v in ("both", "both_rev") for v in sp.values()):
         classes.add("conflicting_alias")
+    if any(v == "both_rev" for v in sp.values()):
+        classes.add("conflicting_alias_short_first")
     if any(v == "short" for v in sp.values()):
         classes.add("short_alias")
 
@@ -187,7 +196,7 @@ def check_case(case, rec_):
             other_uc = 0
         spell(kw, "uc", uc, sp.get("uc", "long"), other_uc)
     if cont == "reader":
-        if sp.get("aw") == "both":
+        if sp.get("aw") in ("both", "both_rev"):
             kw["analysis_window"] = aw * 3  # a reader's own block duration governs: must be ignored
         elif sp.get("aw") == "short":
             kw["aw"] = aw * 3
@@ -199,6 +208,7 @@ def check_case(case, rec_):
     if rec.get("thr0"):
         classes.add("threshold_zero")
     pipe = None
+    rest_got = None
     if needs_params:
         spell(kw, "sr", sr, sp.get("sr", "long"), sr + 1)
         spell(kw, "sw", sw, sp.get("sw", "long"), {1: 2, 2: 4, 4: 1}[sw])
@@ -263,10 +273,18 @@ def check_case(case, rec_):
             inp = "-"
         else:
             raise HarnessError(cont)
+        rest_got = None
         if cont == "region_method":
             got = list(inp.split(**kw))
         else:
             got = list(auditok.split(inp, **kw))
+        if cont in ("stdin", "stdin_pipe") and mr is not None and case.get("second_stdin_split") and len(vis) < len(data):
+            # the same process goes on reading the same standard input: the remainder, as a new stream
+            import gc
+
+            gc.collect()
+            kw2 = {k: v for k, v in kw.items() if k not in ("max_read", "mr")}
+            rest_got = list(auditok.split("-", **kw2))
     finally:
         sys.stdin = old_stdin
         if pipe is not None:
@@ -278,6 +296,15 @@ def check_case(case, rec_):
                 pass
     a = [(round(r.start * sr), bytes(r)) for r in base]
     b = [(round(r.start * sr), bytes(r)) for r in got]
+    if rest_got is not None:
+        rest_exp = [(round(r.start * sr), bytes(r)) for r in auditok.split(data[len(vis):], **base_kw)]
+        rest_have = [(round(r.start * sr), bytes(r)) for r in rest_got]
+        classes.add("second_split_on_same_stdin")
+        if rest_have != rest_exp:
+            raise Violation(
+                f"container {cont}: a second split('-') on the same stdin (after max_read={mr!r}) gives "
+                f"{[(s, len(d) // bps) for s, d in rest_have]}, the rest of the audio as bytes gives "
+                f"{[(s, len(d) // bps) for s, d in rest_exp]}", case)
     if a != b:
         raise Violation(
             f"container {cont} (spelling {sp}, max_read {mr!r}): regions "
@@ -295,6 +322,13 @@ def explicit_cases():
         out.append({"audio": dict(base, sw=(1, 2, 4)[i % 3]), "win": [2, 4, 1, bool(i % 2), False], "container": c,
                     "spell": {"sr": "both", "aw": "short", "eth": "both", "mr": "both", "fmt": "both"} if i % 2 else {"sw": "short", "ch": "both", "uc": "both", "val": "both"},
                     "mr": [7, 0.25] if i % 3 == 0 else None})
+    bigw = {"sr": 48000, "sw": 2, "ch": 1, "B": 66000, "pat": "0110", "tail": [100, 0], "al": 3000, "aq": 0, "salt": 8, "uc": None}
+    out.append({"audio": bigw, "win": [1, 3, 0, False, False], "container": "wav_lazy", "spell": {}, "mr": None})
+    out.append({"audio": bigw, "win": [1, 3, 0, False, False], "container": "stdin", "spell": {}, "mr": None})
+    out.append({"audio": base, "win": [2, 4, 1, False, False], "container": "stdin", "spell": {"sr": "both_rev", "eth": "both_rev", "mr": "both_rev"},
+                "mr": [9, 0], "second_stdin_split": True})
+    out.append({"audio": base, "win": [2, 4, 1, False, False], "container": "stdin_pipe", "spell": {"ch": "both_rev"},
+                "mr": [12, 0.5], "second_stdin_split": True})
     return out
 
 
@@ -303,7 +337,7 @@ def strategy(draw, maxwin):
     c = draw(audio.audio_case(maxwin=maxwin, maxB=8, shapes="light"))
     c["container"] = draw(st.sampled_from(CONTAINERS))
     names = draw(st.lists(st.sampled_from(sorted(PAIRS)), unique=True, max_size=5))
-    c["spell"] = {n: draw(st.sampled_from(["short", "both", "long"])) for n in names}
+    c["spell"] = {n: draw(st.sampled_from(["short", "both", "long", "both_rev"])) for n in names}
     if "val" in c["spell"] and draw(st.booleans()):
         del c["spell"]["val"]
     N = len(c["audio"]["pat"]) * c["audio"]["B"] + c["audio"]["tail"][0]
@@ -312,6 +346,7 @@ def strategy(draw, maxwin):
     else:
         c["mr"] = None
     c["lazy"] = draw(st.booleans())
+    c["second_stdin_split"] = draw(st.booleans())
     c["wav_spelling"] = draw(st.sampled_from(["wav", "wave", "WAV", "WAVE", "Wave", "Wav"]))
     c["raw_spelling"] = draw(st.sampled_from(["raw", "RAW", "Raw"]))
     if c["container"].startswith("region") and draw(st.booleans()):
